@@ -379,6 +379,17 @@ func (env *Env) evalIdent(e *ast.Ident) Val {
 	if v, ok := env.loopVars[e.Name]; ok {
 		return v
 	}
+	if env.useLocals && env.st != nil {
+		// a parameter that the body reassigns denotes its current value in invariants and assertions
+		// (entry(x) names the value at entry)
+		if _, isParam := fc.params[e.Name]; isParam {
+			if w, has := env.st.locals[e.Name]; has && !env.st.localAddr[e.Name] && w.T != "" {
+				if pv, ok := env.vars[e.Name]; !ok || pv.T != w.T {
+					return w
+				}
+			}
+		}
+	}
 	if v, ok := env.vars[e.Name]; ok {
 		return v
 	}
